@@ -310,7 +310,7 @@ pub fn panic_label(p: &Panic) -> String {
 // in-process watchdog for non-termination
 
 struct Slot {
-    since: Mutex<Option<(Instant, Case)>>,
+    since: Mutex<Option<(Instant, i32, u64, Case)>>,
 }
 
 static SLOTS: OnceLock<Vec<Slot>> = OnceLock::new();
@@ -331,7 +331,8 @@ pub struct Watch(usize);
 pub fn watch(case: &Case) -> Watch {
     let i = slot_index();
     if WATCHDOG_ON.load(Ordering::Relaxed) {
-        *slots()[i].since.lock().unwrap() = Some((Instant::now(), case.clone()));
+        let tid = crate::ambient::gettid();
+        *slots()[i].since.lock().unwrap() = Some((Instant::now(), tid, crate::ambient::thread_cpu_ns(tid).unwrap_or(0), case.clone()));
     }
     Watch(i)
 }
@@ -355,9 +356,25 @@ pub fn start_watchdog(prop: &str, tier: Tier, seed: u64) {
         for s in slots().iter() {
             let stuck = {
                 let g = s.since.lock().unwrap();
+                // the limit is on the CPU time the watched call has consumed (a loop that never ends
+                // burns CPU; a busy machine must not turn a slow call into a hang).  Backstops on the
+                // wall clock: a call that is blocked (no CPU for 15 limits) or has not returned after
+                // 90 limits
                 match &*g {
-                    Some((t, c)) if t.elapsed() > limit => Some(c.clone()),
-                    _ => None,
+                    Some((t, tid, cpu0, c)) => {
+                        let wall = t.elapsed();
+                        let cpu = crate::ambient::thread_cpu_ns(*tid).map(|n| Duration::from_nanos(n.saturating_sub(*cpu0)));
+                        let hung = match cpu {
+                            Some(cpu) => cpu > limit || (wall > limit * 15 && cpu < Duration::from_secs(1)) || wall > limit * 90,
+                            None => wall > limit * 15,
+                        };
+                        if hung {
+                            Some(c.clone())
+                        } else {
+                            None
+                        }
+                    }
+                    None => None,
                 }
             };
             if let Some(case) = stuck {
@@ -366,7 +383,7 @@ pub fn start_watchdog(prop: &str, tier: Tier, seed: u64) {
                     "hang",
                     "a call on this input did not return within the watchdog limit",
                     "returns a value or an error",
-                    format!("no return after {} ms", limit.as_millis()),
+                    format!("no return after {} ms of CPU time (or blocked for {} ms)", limit.as_millis(), limit.as_millis() * 15),
                     json!({"engine": "IN", "case": case.to_value()}),
                 );
                 let path = write_replay(&v, 0);
